@@ -7,6 +7,7 @@
 package sipsp
 
 //@ func skipCRLF(buf, offs) (n, crl, err)
+//@   law[C03] EXT(buf)
 //@   requires  bufOK(buf) && 0 <= offs && offs <= len(buf)
 //@   ensures   err == ErrHdrOk ==> (crl == 1 || crl == 2) && n == offs+crl && n <= len(buf)
 //@   ensures   err != ErrHdrOk ==> n == offs && crl == 0
@@ -17,6 +18,7 @@ package sipsp
 //@   ensures   err == ErrHdrOk ==> (crl == 2 <==> (buf[offs] == '\r' && buf[offs+1] == '\n'))
 
 //@ func skipLWS(buf, offs, flags) (n, crl, err)
+//@   law[C03] EXT(buf) when flags&POptInputEndF == 0
 //@   requires  bufOK(buf) && 0 <= offs && offs <= len(buf)
 //@   loop 0 "for ; i < len(buf); i++"
 //@     invariant offs <= i && i <= len(buf)
@@ -32,6 +34,7 @@ package sipsp
 //@   ensures   err == ErrHdrMoreBytes ==> crl == 0 && (n == len(buf) || (isCRLF(buf[n]) && n+2 >= len(buf)))
 
 //@ func skipWS(buf, offs) (r)
+//@   law[C03] EXTSCAN(buf)
 //@   requires  bufOK(buf) && 0 <= offs && offs <= len(buf)
 //@   loop 0 "for ; offs < len(buf) && (buf[offs] == ' ' || buf[offs] == '\t'); offs++"
 //@     invariant offs0 <= offs && offs <= len(buf)
@@ -42,6 +45,7 @@ package sipsp
 //@   ensures   r == len(buf) || !isWS(buf[r])
 
 //@ func skipToken(buf, offs) (r)
+//@   law[C03] EXTSCAN(buf)
 //@   requires  bufOK(buf) && 0 <= offs && offs <= len(buf)
 //@   loop 0 "for ; offs < len(buf) && buf[offs] != ' ' && buf[offs] != '\t' && buf[offs] != '\r' && buf[offs] != '\n'; offs++"
 //@     invariant offs0 <= offs && offs <= len(buf)
@@ -52,6 +56,7 @@ package sipsp
 //@   ensures   r == len(buf) || isLWSc(buf[r])
 
 //@ func skipTokenDelim(buf, offs, delim) (r)
+//@   law[C03] EXTSCAN(buf)
 //@   requires  bufOK(buf) && 0 <= offs && offs <= len(buf)
 //@   loop 0 "for ; offs < len(buf) && buf[offs] != ' ' && buf[offs] != '\t' && buf[offs] != '\r' && buf[offs] != '\n' && buf[offs] != delim; offs++"
 //@     invariant offs0 <= offs && offs <= len(buf)
@@ -62,6 +67,7 @@ package sipsp
 //@   ensures   r == len(buf) || isLWSc(buf[r]) || buf[r] == delim
 
 //@ func skipLine(buf, offs) (n, crl, err)
+//@   law[C03] EXT(buf)
 //@   requires  bufOK(buf) && 0 <= offs && offs <= len(buf)
 //@   loop 0 "for ; offs < len(buf) && buf[offs] != '\n' && buf[offs] != '\r'; offs++"
 //@     invariant offs0 <= offs && offs <= len(buf)
@@ -74,6 +80,7 @@ package sipsp
 //@   ensures   err == ErrHdrMoreBytes ==> crl == 0 && n+1 >= len(buf) && forall(k, offs, n, !isCRLF(buf[k]))
 
 //@ func ParseCSeqVal(buf, offs, pcs) (n, err)
+//@   law[C03] EXT(buf)
 //@   requires  bufOK(buf) && 0 <= offs && offs <= len(buf) && pcs != nil && csOK(pcs, offs)
 //@   modifies  *pcs
 //@   loop 0 "for i < len(buf)"
@@ -89,6 +96,7 @@ package sipsp
 //@   ensures[C10] "cseq-suspended": err == ErrHdrMoreBytes ==> csNum(pcs, buf, n)
 
 //@ func ParseUIntVal(buf, offs, pcl) (n, err)
+//@   law[C03] EXT(buf)
 //@   requires  bufOK(buf) && 0 <= offs && offs <= len(buf) && pcl != nil && clOK(pcl, offs)
 //@   modifies  *pcl
 //@   loop 0 "for i < len(buf)"
@@ -115,6 +123,7 @@ package sipsp
 //@   ensures[C10] "clen-suspended": err == ErrHdrMoreBytes ==> clNum(pcl, buf, n)
 
 //@ func ParseCallIDVal(buf, offs, pcid) (n, err)
+//@   law[C03] EXT(buf)
 //@   requires  bufOK(buf) && 0 <= offs && offs <= len(buf) && pcid != nil && ciOK(pcid, offs)
 //@   modifies  *pcid
 //@   loop 0 "for i < len(buf)"
